@@ -104,18 +104,50 @@ def kwalk(path, follow, cwd='/'):
     return '/' + '/'.join(cur), None
 
 
+def would_take_effect(name, flags, loc, err):
+    """Does this mutating call create or modify something, given the state
+    of the file system just before it (the process runs as root, so only
+    structural reasons make it fail)?"""
+    if err is not None:
+        return False
+    try:
+        st = _o_lstat(loc)
+    except OSError:
+        st = None
+    isdir = st is not None and statmod.S_ISDIR(st.st_mode)
+    islnk = st is not None and statmod.S_ISLNK(st.st_mode)
+    if name == 'open':
+        if st is None:
+            return bool(flags & os.O_CREAT)
+        if isdir or islnk:
+            return False
+        return not (flags & os.O_CREAT and flags & os.O_EXCL)
+    if name in ('os.mkdir', 'os.symlink'):
+        return st is None
+    if name == 'os.truncate':
+        return st is not None and not isdir
+    if name in ('os.chmod', 'os.chown', 'os.utime'):
+        return st is not None
+    if name == 'os.remove':
+        return st is not None and not isdir
+    if name == 'os.rmdir':
+        return isdir
+    return True
+
+
 def under(root, loc):
     return loc == root or loc.startswith(root.rstrip('/') + '/')
 
 
 class Event:
     __slots__ = ('name', 'path', 'follow', 'loc', 'err', 'mutating', 'req',
-                 'blocked')
+                 'blocked', 'effective')
 
     def __init__(self, name, path, follow, loc, err, mutating, req):
         self.name, self.path, self.follow = name, path, follow
         self.loc, self.err, self.mutating, self.req = loc, err, mutating, req
         self.blocked = False
+        self.effective = False  # the call would create / modify something
 
     def as_list(self):
         return [self.name, self.path, self.loc]
@@ -219,13 +251,14 @@ class Monitor:
         ev, self.events = self.events, []
         return ev
 
-    def _record(self, name, path, follow, mutating):
+    def _record(self, name, path, follow, mutating, flags=0):
         p = _s(path)
         if p is None:
             return None
         self.quiet_depth += 1
         try:
             loc, err = kwalk(p, follow, os.getcwd())
+            eff = mutating and would_take_effect(name, flags, loc, err)
         finally:
             self.quiet_depth -= 1
         if not mutating and loc.startswith(self.noise_prefixes) and \
@@ -233,6 +266,7 @@ class Monitor:
             self.noise.append((name, p))
             return None
         ev = Event(name, p, follow, loc, err, mutating, self.req)
+        ev.effective = eff
         self.events.append(ev)
         return ev
 
@@ -248,7 +282,7 @@ class Monitor:
             mut = bool(flags & WRITE_FLAGS)
             fl = not (flags & os.O_NOFOLLOW or
                       (flags & os.O_CREAT and flags & os.O_EXCL))
-            evs.append(self._record('open', path, fl, mut))
+            evs.append(self._record('open', path, fl, mut, flags))
         elif event in ('os.mkdir', 'os.remove', 'os.rmdir'):
             if isinstance(args[0], int) or args[-1] not in (None, -1):
                 return
@@ -305,26 +339,64 @@ class Area:
         self.reset()
         os.chdir(self.cwd)
 
+    def _rm(self, p):
+        if os.path.islink(p) or not os.path.isdir(p):
+            os.remove(p)
+        else:
+            shutil.rmtree(p)
+
+    def _intact(self, rel, content):
+        p = os.path.join(self.top, rel)
+        try:
+            st = _o_lstat(p)
+            if not statmod.S_ISREG(st.st_mode) or st.st_size != len(content) \
+                    or st.st_nlink != 1 or statmod.S_IMODE(st.st_mode) != 0o644:
+                return False
+            with open(p) as f:
+                return f.read() == content
+        except OSError:
+            return False
+
+    def _isdir(self, p, mode=0o755):
+        try:
+            st = _o_lstat(p)
+        except OSError:
+            return False
+        return statmod.S_ISDIR(st.st_mode) and statmod.S_IMODE(st.st_mode) == mode
+
     def reset(self, tree=None, dest='none'):
         """Empty the area and rebuild the skeleton (+ an initial tree below
-        the root: {('a','b'): 'dir'|'file'})."""
+        the root: {('a','b'): 'dir'|'file'}).  Intact parts of the skeleton
+        are kept (file-system calls are the expensive part of a case)."""
+        keep_root = self._isdir(self.root) and self._intact('R/.keep', 'keep')
+        keep_sdir = self._isdir(os.path.join(self.top, 'sdir')) and \
+            self._intact('sdir/inner', 'INNER') and \
+            _o_listdir(os.path.join(self.top, 'sdir')) == ['inner']
+        keep_secret = self._intact('secret', 'SECRET')
         for name in _o_listdir(self.top):
             p = os.path.join(self.top, name)
-            if name == 'cwd':
+            if name == 'cwd' or (name == 'R' and keep_root) or \
+                    (name == 'sdir' and keep_sdir) or \
+                    (name == 'secret' and keep_secret):
                 continue
-            if os.path.islink(p) or not os.path.isdir(p):
-                os.remove(p)
-            else:
-                shutil.rmtree(p)
-        os.makedirs(self.cwd, exist_ok=True)
-        os.mkdir(self.root)
-        with open(os.path.join(self.root, '.keep'), 'w') as f:
-            f.write('keep')
-        with open(os.path.join(self.top, 'secret'), 'w') as f:
-            f.write('SECRET')
-        os.mkdir(os.path.join(self.top, 'sdir'))
-        with open(os.path.join(self.top, 'sdir', 'inner'), 'w') as f:
-            f.write('INNER')
+            self._rm(p)
+        if keep_root:
+            for name in _o_listdir(self.root):
+                if name != '.keep':
+                    self._rm(os.path.join(self.root, name))
+        else:
+            os.mkdir(self.root, 0o755)
+            with open(os.path.join(self.root, '.keep'), 'w') as f:
+                f.write('keep')
+        if not keep_secret:
+            with open(os.path.join(self.top, 'secret'), 'w') as f:
+                f.write('SECRET')
+        if not keep_sdir:
+            os.mkdir(os.path.join(self.top, 'sdir'), 0o755)
+            with open(os.path.join(self.top, 'sdir', 'inner'), 'w') as f:
+                f.write('INNER')
+        if not os.path.isdir(self.cwd):
+            os.makedirs(self.cwd)
         for loc in sorted(tree or {}, key=len):
             p = os.path.join(self.root, *loc)
             if tree[loc] == 'dir':
@@ -337,6 +409,21 @@ class Area:
         elif dest == 'file':
             with open(self.dest, 'w') as f:
                 f.write('old')
+
+    def decoy_attrs(self):
+        out = {}
+        for rel in ('secret', 'sdir', 'sdir/inner'):
+            try:
+                st = _o_lstat(os.path.join(self.top, rel))
+                out[rel] = (st.st_mode, st.st_mtime_ns, st.st_size)
+            except OSError:
+                out[rel] = None
+        try:
+            st = _o_lstat(self.top)
+            out['.'] = (st.st_mode,)
+        except OSError:
+            out['.'] = None
+        return out
 
     def to_model(self, loc):
         """real location -> model location tuple ('T','R','a') or None if
@@ -462,7 +549,9 @@ class ServerWorld:
                 sftp_version=sftp_version)
             self.conn = await asyncssh.connect(
                 '127.0.0.1', 2222, known_hosts=None, config=None,
-                client_keys=None, username='u')
+                client_keys=None, username='u',
+                encryption_algs=['aes128-gcm@openssh.com'],
+                compression_algs=['none'])
             self.sftp = await self.conn.start_sftp_client(
                 sftp_version=sftp_version)
         self.loop.run_until_complete(start())
@@ -585,15 +674,28 @@ class _Listing:
 
     def __init__(self, entries):
         self.entries = entries
+        self.asked = {}
 
     def find_dir(self, path):
-        """sub-listing for a directory path the client asks for"""
+        """sub-listing for a directory path the client asks for; the k-th
+        request for one path gets the k-th listed directory of that name"""
         if path == b's':
             return self.entries
+        cands = []
         for e in self.entries:
-            if e['type'] == 'dir' and posixpath.join(b's', e['name']) == path:
-                return e['sub']
-        return []
+            if e['type'] != 'dir':
+                continue
+            if posixpath.join(b's', e['name']) == path:
+                cands.append(e['sub'])
+            for x in e['sub']:
+                if x['type'] == 'dir' and posixpath.join(
+                        b's', e['name'], x['name']) == path:
+                    cands.append(x['sub'])
+        k = self.asked.get(path, 0)
+        self.asked[path] = k + 1
+        if not cands:
+            return []
+        return cands[min(k, len(cands) - 1)]
 
     def find_link(self, path):
         for e in self.entries:
@@ -717,7 +819,9 @@ class DownloadWorld:
                 sftp_factory=make_hostile_sftp(world), encoding=None)
             self.conn = await asyncssh.connect(
                 '127.0.0.1', 2223, known_hosts=None, config=None,
-                client_keys=None, username='u')
+                client_keys=None, username='u',
+                encryption_algs=['aes128-gcm@openssh.com'],
+                compression_algs=['none'])
             self.sftp = await self.conn.start_sftp_client()
         self.loop.run_until_complete(start())
         noise = [sys.prefix, sys.base_prefix, sys.exec_prefix,
@@ -734,6 +838,7 @@ class DownloadWorld:
     def _run(self, coro, dest):
         with self.mon.quiet():
             self.area.reset(dest=dest)
+            before = self.area.decoy_attrs()
         self.served = []
         self.scp_log = []
         mon = self.mon
@@ -749,11 +854,17 @@ class DownloadWorld:
         events = mon.take()
         with mon.quiet():
             snap = self.area.snapshot(skip=('R',))
+            after = self.area.decoy_attrs()
+        outside = outside_changes(snap, ('T', 'D'))
+        outside += [(('T', k), 'attributes changed') for k in before
+                    if before[k] != after[k]]
         return dict(exc=None if exc is None else f'{type(exc).__name__}: {exc}',
                     events=events, snap=snap,
-                    escapes=[e for e in events if e.mutating and
-                             not under(self.area.dest, e.loc)],
-                    outside=outside_changes(snap, ('T', 'D')))
+                    escapes=[e for e in events if e.mutating and e.effective
+                             and not under(self.area.dest, e.loc)],
+                    attempts=[e for e in events if e.mutating and
+                              not under(self.area.dest, e.loc)],
+                    outside=outside)
 
     def run_scp(self, script, dest, cont, preserve):
         """script: [(action, name bytes)]; dest: 'dir'|'none'|'file'"""
@@ -919,6 +1030,8 @@ def run_sequence(world, init_tree, reqs, predicted=None):
             if bool(bad) != pesc:
                 diverged = (f'step {i} {req_str((op, p, q))}: escape observed='
                             f'{bool(bad)} predicted={pesc}')
+            elif bad:
+                pass        # outside the root the model is not meant to be exact
             elif op not in STATUS_FREE_OPS and st != pst:
                 diverged = (f'step {i} {req_str((op, p, q))}: status observed='
                             f'{st} ({detail}) predicted={pst}')
